@@ -523,7 +523,7 @@ func (g *caseGen) one() {
 	default:
 		q := g.relatedQ()
 		g.qs = append(g.qs, q)
-		flags := vlib.Pick(r, []string{"-", "-", "-", "-", "e", "d", "b", "w", "bw", "ed"})
+		flags := vlib.Pick(r, []string{"-", "-", "-", "-", "e", "d", "p", "b", "w", "bw", "ed"})
 		mark := vlib.Pick(r, []string{"none", "none", "none", "work", "attempt", "probe", "shed", "w:shed", "maxrec", "canceled", "deadline", "other", "w:attempt", "w:deadline", "else:work", "else:canceled"})
 		class := vlib.Pick(r, []string{"servfail", "servfail", "refused", "useful", "nxdomain"})
 		g.out("fail write %s %s %s %d %d %s", flags, mark, q, g.step(), r.Intn(3), class)
@@ -967,6 +967,8 @@ func genL3(r *vlib.R, tier string, emit func(string), n *int) {
 		emit("fail l3shed " + vlib.Pick(r, []string{"global", "zone", "nested", "nested"}))
 		*n--
 	}
+	emit("fail l3zone x 0") // a lone healthy server stating a bare NXDOMAIN (no SOA): a denial, not a zone failure
+	*n--
 	emit(fmt.Sprintf("fail l3zone %s,x,%s 0", vlib.Pick(r, fails), vlib.Pick(r, fails))) // one server denies the name: NXDOMAIN, no zone failure
 	*n--
 	// the identity a failure is filed under is the client's: dnssec switch × CD × outcome path
@@ -1020,7 +1022,7 @@ func indexOf(xs []string, x string) int {
 }
 
 func genStateless(r *vlib.R, emit func(string), n *int, k int) {
-	flags := []string{"-", "e", "d", "b", "w", "eb", "bw", "dw", "edbw"}
+	flags := []string{"-", "e", "d", "p", "p", "b", "w", "eb", "bw", "dw", "pw", "edbw"}
 	marks := []string{"none", "work", "attempt", "probe", "shed", "w:shed", "maxrec", "canceled", "deadline", "other", "w:work", "w:attempt", "w:canceled", "w:deadline", "w:other", "else:work", "else:deadline"}
 	causes := []string{"none", "work", "attempt", "probe", "shed", "maxrec", "canceled", "deadline", "other", "w:work", "w:attempt", "w:maxrec", "w:canceled", "w:deadline", "w:other"}
 	for i := 0; i < k; i++ {
